@@ -273,6 +273,13 @@ func hotspotModule() *module {
 		{ID: "a5dur", Res: "a", mk: func() interface{} {
 			return &hotspot.Rule{ID: "a5", Resource: "a", MetricType: hotspot.QPS, ControlBehavior: hotspot.Reject, DurationInSec: 2, Threshold: 5}
 		}},
+		// two rules that differ only in the threshold of one specific item (same keys)
+		{ID: "a5vip1", Res: "a", mk: func() interface{} {
+			return &hotspot.Rule{ID: "a5", Resource: "a", MetricType: hotspot.QPS, ControlBehavior: hotspot.Reject, DurationInSec: 1, Threshold: 5, SpecificItems: map[interface{}]int64{"vip": 1}}
+		}},
+		{ID: "a5vip2", Res: "a", mk: func() interface{} {
+			return &hotspot.Rule{ID: "a5", Resource: "a", MetricType: hotspot.QPS, ControlBehavior: hotspot.Reject, DurationInSec: 1, Threshold: 5, SpecificItems: map[interface{}]int64{"vip": 2}}
+		}},
 	}
 	conv := func(rs []interface{}) []*hotspot.Rule {
 		out := make([]*hotspot.Rule, 0, len(rs))
@@ -288,10 +295,10 @@ func hotspotModule() *module {
 		}
 		return out
 	}
-	thr := map[string]int64{"a5": 5, "a0": 0, "a50": 50, "b0": 0, "a5cap": 5, "a5burst": 6, "a5dur": 5}
+	thr := map[string]int64{"a5": 5, "a0": 0, "a50": 50, "b0": 0, "a5cap": 5, "a5burst": 6, "a5dur": 5, "a5vip1": 5, "a5vip2": 5}
 	return &module{
 		Name: "hotspot", Specs: specs, Resources: []string{"a", "b"},
-		Lists:    append(listsFor([]int{0, 1, 2}, 3, []int{4, 5, 6, 7, 8, 9, 10}, 11), []int{12}, []int{13}, []int{14}),
+		Lists:    append(listsFor([]int{0, 1, 2}, 3, []int{4, 5, 6, 7, 8, 9, 10}, 11), []int{12}, []int{13}, []int{14}, []int{15}, []int{16}),
 		Load:     func(rs []interface{}) (bool, error) { return hotspot.LoadRules(conv(rs)) },
 		LoadRes:  func(res string, rs []interface{}) (bool, error) { return hotspot.LoadRulesOfResource(res, conv(rs)) },
 		Clear:    hotspot.ClearRules,
